@@ -6,7 +6,8 @@ set -u
 wt="$1"; id="$2"
 cd "$wt" || exit 2
 cp patch.diff /tmp/rd/patch_$id.diff
-git stash push -q -- src >/dev/null 2>&1
+# note: git stash is shared between all worktrees of a repository - never use it here
+git diff -- src > /tmp/rd/wt_state_$id.diff
 git checkout -q -- src 2>/dev/null
 if ! git apply --check /tmp/rd/patch_$id.diff; then echo "PATCH DOES NOT APPLY"; exit 1; fi
 echo "--- without patch: demo"
@@ -23,5 +24,5 @@ cp /tmp/rd/patch_$id.diff /verif/seeded/$id/patch.diff
 cp tests/seeded_demo.rs /verif/seeded/$id/seeded_demo.rs
 cp meta.json /verif/seeded/$id/meta.agent.json 2>/dev/null
 git checkout -q -- src
-git stash drop -q >/dev/null 2>&1
+git apply /tmp/rd/wt_state_$id.diff 2>/dev/null
 echo "stored in /verif/seeded/$id"
